@@ -19,8 +19,13 @@ def snapshot():
     global SNAP
     SNAP = f"/var/tmp/verif-snap-{os.getpid()}"
     shutil.rmtree(SNAP, ignore_errors=True)
-    subprocess.run(["rsync", "-a", "--exclude", ".venv", "--exclude", "replays", "--exclude", ".git", "--exclude", "__pycache__",
-                    VERIF + "/", SNAP + "/"], check=True)
+    os.makedirs(SNAP)
+    if os.environ.get("RUN_SEEDED_WORKTREE") == "1":
+        subprocess.run(["rsync", "-a", "--exclude", ".venv", "--exclude", "replays", "--exclude", ".git", "--exclude", "__pycache__",
+                        VERIF + "/", SNAP + "/"], check=True)
+    else:
+        # the committed state (always consistent, unlike a working tree that is being edited)
+        subprocess.run(f"git -C {VERIF} archive HEAD | tar -x -C {SNAP}", shell=True, check=True)
     os.symlink(os.path.join(VERIF, ".venv"), os.path.join(SNAP, ".venv"))
     return SNAP
 
